@@ -591,6 +591,76 @@ theorem rejects_missing_enumerator (P : ProgCtx) (Γ : Env) (ln : Ln) (s : Expr)
   exact ⟨by rw [exhaustiveM_fst]; exact hex,
     P.plug_error Γ _ _ hreach (tc_match_missing Γ ln s g gs cs en arms hs hen hg hsame hex)⟩
 
+/-! ### enum records -/
+
+/-- `En::it(args)` with a number of arguments other than the fields of the enumerator -/
+theorem rejects_ctor_arity (P : ProgCtx) (Γ : Env) (ln : Ln) (e : Expr) (it s : String) (args : ExprList)
+    (ce : Comb) (cs : List (Ln × Comb)) (fs : List Field) (hreach : P.holeEnv = .ok Γ)
+    (he : tc Γ e = .ok ce) (hct : ce.ct = .enumId s) (hit : Γ.hasItem s it = true)
+    (ha : tcArgs Γ args = .ok cs) (hf : Γ.enumRecFields s it = some fs) (hlen : fs.length ≠ cs.length) :
+    check (P.plug (.ctor ln e it args)) = .error ⟨ln, .enumCreate⟩ :=
+  P.plug_error Γ _ _ hreach (tc_ctor_arity Γ ln e it s args ce cs fs he hct hit ha hf hlen)
+
+/-- … with an argument of a kind the field does not accept (diagnostic at the constructor or at
+the argument) -/
+theorem rejects_ctor_kind (P : ProgCtx) (Γ : Env) (ln : Ln) (e : Expr) (it s : String) (args : ExprList)
+    (ce : Comb) (cs : List (Ln × Comb)) (fs : List Field) (hreach : P.holeEnv = .ok Γ)
+    (he : tc Γ e = .ok ce) (hct : ce.ct = .enumId s) (hit : Γ.hasItem s it = true)
+    (ha : tcArgs Γ args = .ok cs) (hf : Γ.enumRecFields s it = some fs)
+    (hbad : SomeArgRejected (fs.map fun f => (f.cst, f.ty)) cs) :
+    ∃ d, check (P.plug (.ctor ln e it args)) = .error d ∧ (d.line = ln ∨ ∃ a ∈ cs, d.line = a.1) := by
+  obtain ⟨d, hd, hl⟩ := tc_ctor_kind Γ ln e it s args ce cs fs he hct hit ha hf hbad
+  exact ⟨d, P.plug_error Γ _ _ hreach hd, hl⟩
+
+/-- … and a plain enumerator is not a constructor -/
+theorem rejects_ctor_of_plain_enumerator (P : ProgCtx) (Γ : Env) (ln : Ln) (e : Expr) (it s : String)
+    (args : ExprList) (ce : Comb) (cs : List (Ln × Comb)) (hreach : P.holeEnv = .ok Γ)
+    (he : tc Γ e = .ok ce) (hct : ce.ct = .enumId s) (hit : Γ.hasItem s it = true)
+    (ha : tcArgs Γ args = .ok cs) (hf : Γ.enumRecFields s it = none) :
+    check (P.plug (.ctor ln e it args)) = .error ⟨ln, .enumCreate⟩ :=
+  P.plug_error Γ _ _ hreach (tc_ctor_plain Γ ln e it s args ce cs he hct hit ha hf)
+
+/-- a record guard `En::it(x, …) -> …` of a match (`pre` are the guards before it) whose number
+of binds is not the number of fields of the enumerator: refused at the guard (52cb4aa: without
+walking the missing list) -/
+theorem rejects_guard_bind_count (P : ProgCtx) (Γ : Env) (ln gln : Ln) (s : Expr) (en it : String)
+    (binds : List (Ln × String)) (e : Expr) (gs : GuardList) (cs : Comb) (en' : String) (pre : GuardList)
+    (arms : List Comb) (hreach : P.holeEnv = .ok Γ)
+    (hs : tc Γ s = .ok cs) (hen : cs.ct = .val (.enum en')) (hpre : tcGuards Γ pre = .ok arms)
+    (hg : guardItemPre Γ gln en it = .ok ())
+    (hbad : guardBindsOk Γ gln en it binds = .error ⟨gln, .guardBinds⟩) :
+    check (P.plug (.match_ ln s (pre.app (.cons (.recd gln en it binds e) gs)))) = .error ⟨gln, .guardBinds⟩ :=
+  P.plug_error Γ _ _ hreach (tc_match_guard_binds Γ ln gln s en it binds e gs cs en' pre arms hs hen hpre hg hbad)
+
+/-- … the same in `if let (En::it(x, …) = e)` -/
+theorem rejects_iflet_bind_count (P : ProgCtx) (Γ : Env) (ln gln : Ln) (en it : String)
+    (binds : List (Ln × String)) (e t f : Expr) (ce : Comb) (en' : String) (hreach : P.holeEnv = .ok Γ)
+    (he : tc Γ e = .ok ce) (hen : ce.ct = .val (.enum en')) (hg : guardItemPre Γ gln en it = .ok ())
+    (hbad : guardBindsOk Γ gln en it binds = .error ⟨gln, .guardBinds⟩) :
+    check (P.plug (.ifLetRec ln gln en it binds e t f)) = .error ⟨gln, .guardBinds⟩ :=
+  P.plug_error Γ _ _ hreach (tc_ifletrec_binds Γ ln gln en it binds e t f ce en' he hen hg hbad)
+
+/-- a record guard that does not resolve (unknown enum, unknown enumerator, a name that is not
+an enum): refused with the diagnostic of the resolution, at the guard -/
+theorem rejects_guard_unknown_enumerator (P : ProgCtx) (Γ : Env) (ln gln : Ln) (s : Expr) (en it : String)
+    (binds : List (Ln × String)) (e : Expr) (gs : GuardList) (cs : Comb) (en' : String) (pre : GuardList)
+    (arms : List Comb) (d : Diag) (hreach : P.holeEnv = .ok Γ)
+    (hs : tc Γ s = .ok cs) (hen : cs.ct = .val (.enum en')) (hpre : tcGuards Γ pre = .ok arms)
+    (hg : guardItemPre Γ gln en it = .error d) :
+    check (P.plug (.match_ ln s (pre.app (.cons (.recd gln en it binds e) gs)))) = .error d :=
+  P.plug_error Γ _ _ hreach (tc_match_guard_unknown Γ ln gln s en it binds e gs cs en' pre arms d hs hen hpre hg)
+
+/-- guards that all resolve, one of them — item or record guard — of ANOTHER enum than the
+matched value: "enums are different", at that guard (enums are compared by identity, so a
+same-named, same-shaped enum of another module is another enum: modules are outside the model,
+corpus/tc_neg/nominal_* hold those cases) -/
+theorem rejects_guard_other_enum (P : ProgCtx) (Γ : Env) (ln : Ln) (s : Expr) (g : Guard) (gs : GuardList)
+    (cs : Comb) (en : String) (arms : List Comb) (d : Diag) (hreach : P.holeEnv = .ok Γ)
+    (hs : tc Γ s = .ok cs) (hen : cs.ct = .val (.enum en))
+    (hg : tcGuards Γ (.cons g gs) = .ok arms) (hsame : guardsSameEnum en (.cons g gs) = .error d) :
+    check (P.plug (.match_ ln s (.cons g gs))) = .error d :=
+  P.plug_error Γ _ _ hreach (tc_match_guard_other_enum Γ ln s g gs cs en arms d hs hen hg hsame)
+
 /-- a main unit without any function (declarations only, or nothing) is refused, at line 1
 (bad4904: `main_check_type` used to walk the NULL list) -/
 theorem rejects_empty_main_unit (ds : List Decl) (Γ : Env) (hd : globalEnv ds = .ok Γ) :
@@ -833,5 +903,56 @@ example : check (exP2.plug (.id 14 "nosuch")) = .error ⟨14, .undefId⟩ :=
   rejects_undefined_name exP2 exΓ2 14 "nosuch" exP2_reaches rfl
 example : check (exP2.plug (.ass 14 (.id 14 "q") exOne)) = .error ⟨14, .assignConst⟩ :=
   context_error_propagates exP2 exΓ2 _ _ exP2_reaches rfl
+
+/-! non-vacuity, enum records:
+`enum O { N, S { x : int; y : string; } }  enum Q { S { x : int; y : string; } }  func main() -> int { HOLE }` -/
+def exRecDecls : List Decl :=
+  [.enum 1 "O" [(1, "N"), (1, "S")], .enumRec 1 "O" "S" [⟨1, "x", .dflt, .int, []⟩, ⟨1, "y", .dflt, .string, []⟩],
+   .enum 2 "Q" [(2, "S")], .enumRec 2 "Q" "S" [⟨2, "x", .dflt, .int, []⟩, ⟨2, "y", .dflt, .string, []⟩]]
+def exR : ProgCtx :=
+  { decls := exRecDecls, fpre := .nil, h := .body 3 "main" [] .dflt .int .nil, fpost := .nil,
+    frames := [.seqExpr 3 .nil (.cons (.expr exOne) .nil)] }
+def exRΓ : Env := match exR.holeEnv with | .ok Γ => Γ | .error _ => default
+theorem exR_reaches : exR.holeEnv = .ok exRΓ := rfl
+def exS (a b : Expr) : Expr := .ctor 4 (.id 4 "O") "S" (.cons a (.cons b .nil))
+def exFs : List Field := [⟨"x", .var, .int⟩, ⟨"y", .var, .string⟩]
+-- O::S(1, "s") is fine; O::S(1) and O::S("s", "s") and O::N(1) are not
+example : check (exR.plug (exS exOne (.litString 4))) = .ok () := rfl
+example : check (exR.plug (.ctor 4 (.id 4 "O") "S" (.cons exOne .nil))) = .error ⟨4, .enumCreate⟩ :=
+  rejects_ctor_arity exR exRΓ 4 _ "S" "O" _ ⟨.enumId "O", .temp⟩ [(1, ⟨.val .int, .temp⟩)] exFs
+    exR_reaches rfl rfl rfl rfl rfl (by decide)
+example : ∃ d, check (exR.plug (exS (.litString 5) (.litString 4))) = .error d ∧
+    (d.line = 4 ∨ ∃ a ∈ [(5, (⟨.val .string, .temp⟩ : Comb)), (4, ⟨.val .string, .temp⟩)], d.line = a.1) :=
+  rejects_ctor_kind exR exRΓ 4 _ "S" "O" _ ⟨.enumId "O", .temp⟩ _ exFs exR_reaches rfl rfl rfl rfl rfl
+    (.inl (by intro h; cases h with | num _ _ _ hb => simp [isNum] at hb))
+example : check (exR.plug (.ctor 4 (.id 4 "O") "N" (.cons exOne .nil))) = .error ⟨4, .enumCreate⟩ :=
+  rejects_ctor_of_plain_enumerator exR exRΓ 4 _ "N" "O" _ ⟨.enumId "O", .temp⟩ [(1, ⟨.val .int, .temp⟩)]
+    exR_reaches rfl rfl rfl rfl rfl
+-- match O::S(1, "s") { O::N -> 0; O::S(a, b) -> a; }: the binds are typed from the fields
+example : check (exR.plug (.match_ 5 (exS exOne (.litString 4))
+    (.cons (.item 6 "O" "N" exOne) (.cons (.recd 7 "O" "S" [(7, "a"), (7, "b")] (.id 7 "a")) .nil)))) = .ok () := rfl
+example : check (exR.plug (.match_ 5 (exS exOne (.litString 4))
+    (.cons (.item 6 "O" "N" exOne) (.cons (.recd 7 "O" "S" [(7, "a"), (7, "b")] (.id 7 "b")) .nil))))
+    = .error ⟨5, .condBranches⟩ := rfl
+-- one bind for two fields
+example : check (exR.plug (.match_ 5 (exS exOne (.litString 4))
+    (GuardList.app (.cons (.item 6 "O" "N" exOne) .nil) (.cons (.recd 7 "O" "S" [(7, "a")] (.id 7 "a")) .nil))))
+    = .error ⟨7, .guardBinds⟩ :=
+  rejects_guard_bind_count exR exRΓ 5 7 _ "O" "S" _ _ .nil ⟨.val (.enum "O"), .temp⟩ "O" _ [⟨.val .int, .temp⟩]
+    exR_reaches rfl rfl rfl rfl rfl
+example : check (exR.plug (.ifLetRec 5 5 "O" "S" [(5, "a"), (5, "b"), (5, "c")] (exS exOne (.litString 4)) exOne exOne))
+    = .error ⟨5, .guardBinds⟩ :=
+  rejects_iflet_bind_count exR exRΓ 5 5 "O" "S" _ _ _ _ ⟨.val (.enum "O"), .temp⟩ "O" exR_reaches rfl rfl rfl rfl
+example : check (exR.plug (.ifLetRec 5 5 "O" "S" [(5, "a"), (5, "b")] (exS exOne (.litString 4)) (.id 5 "a") exOne)) = .ok () := rfl
+-- O::T(a, b): no such enumerator
+example : check (exR.plug (.match_ 5 (exS exOne (.litString 4))
+    (GuardList.app .nil (.cons (.recd 7 "O" "T" [(7, "a"), (7, "b")] (.id 7 "a")) .nil)))) = .error ⟨7, .matchGuardItem⟩ :=
+  rejects_guard_unknown_enumerator exR exRΓ 5 7 _ "O" "T" _ _ .nil ⟨.val (.enum "O"), .temp⟩ "O" .nil [] _
+    exR_reaches rfl rfl rfl rfl
+-- Q::S(a, b): same name, same shape, another enum
+example : check (exR.plug (.match_ 5 (exS exOne (.litString 4))
+    (.cons (.recd 7 "Q" "S" [(7, "a"), (7, "b")] (.id 7 "a")) (.cons (.else_ 8 exOne) .nil)))) = .error ⟨7, .matchGuardDiffers⟩ :=
+  rejects_guard_other_enum exR exRΓ 5 _ _ _ ⟨.val (.enum "O"), .temp⟩ "O" [⟨.val .int, .var⟩, ⟨.val .int, .temp⟩] _
+    exR_reaches rfl rfl rfl rfl
 
 end Never.C06
